@@ -1,5 +1,6 @@
 import WV.Proofs.ClientCert
 import WV.Model.ClientData
+import WV.Gen.Catches
 
 /-!
 # C14 — no internal failure on any legal use against a conformant server
@@ -61,5 +62,74 @@ example : Reach enabled demo := by
 
 example : demo.ctl.b = .S1_lonely ∧ demo.ctl.sk = .S2_know_key ∧ demo.ctl.r = .S1_unverified_key := by decide
 example : enabled demo (.message .theirs .version true true .good) = true := by decide
+
+/-! ## The exception handlers the model's "unusable PAKE" event stands on
+
+The client model has ONE event for a PAKE of another participant that cannot be used: `PakeKind.noField` (→
+`got_pake_bad`) when the body does not yield an element, `PakeKind.invalid` (→ `_B.scared()`) when SPAKE2 rejects the
+element — whatever statement of `bytes_to_dict` / `hexstr_to_bytes` / `finish` raised, and whichever exception class.
+That is faithful only as long as the `except` clauses around those statements catch every class the statements can
+raise.  The translator lists, for each handler, the classes it names (resolved through aliases) and which classes of a
+probe universe (all of `builtins` below `Exception`, json, binascii, spake2, nacl) it therefore catches; the theorems
+below demand the WHOLE families `ValueError`, `TypeError`, `AssertionError`, `KeyError`, `RecursionError` (resp.
+`SPAKEError`, `NotOnCurve`) — every class of the universe at or below them — so that replacing a family by an
+enumeration of the members one happened to think of is a broken obligation, not only the members the harness's
+corpus exercises (`pake-raise:<statement>:<class>` tags of C14's evidence). -/
+
+open WV.Gen in
+/-- the classes of the probe universe at or below `base` -/
+def below (base : String) : List String :=
+  (Catches.classes.filter (fun p => p.1 == base || p.2.contains base)).map (·.1)
+
+open WV.Gen in
+/-- `fn` consists of exactly one `try` with one handler, which guards exactly the calls `body`, catches every class of
+    the universe at or below each of `bases`, does exactly `handler`, and the only calls outside are `outside` -/
+def guardedBy (fn : String) (body bases handler outside : List String) : Prop :=
+  ∃ h, Catches.handlers fn = [h] ∧ h.body = body ∧ h.handler = handler ∧ h.orelse = [] ∧ h.final = [] ∧
+    Catches.outside fn = outside ∧ ∀ base ∈ bases, base ∈ h.covers ∧ ∀ c ∈ below base, c ∈ h.covers
+
+/-- **pake_parse_failures_are_scared**: in `_SortedKey.got_pake` both parsing calls sit inside the `try`, nothing but
+    `got_pake_good` happens outside it, the handler is `got_pake_bad(); return`, and it catches the whole families
+    ValueError (UnicodeDecodeError, UnicodeEncodeError, JSONDecodeError, binascii.Error, the int-digit-limit ValueError,
+    …), TypeError, AssertionError, KeyError and RecursionError. -/
+theorem pake_parse_failures_are_scared :
+    guardedBy "_SortedKey.got_pake" ["bytes_to_dict", "hexstr_to_bytes"]
+      ["ValueError", "TypeError", "AssertionError", "KeyError", "RecursionError"]
+      ["self.got_pake_bad", "return"] ["self.got_pake_good"] :=
+  ⟨_, rfl, by decide⟩
+
+/-- **pake_element_failures_are_scared**: in `_SortedKey.compute_key` SPAKE2's `finish` is the one guarded call, the
+    handler is `_B.scared(); return`, and it catches the families AssertionError (side byte), ValueError (empty element,
+    zero, wrong subgroup), SPAKEError (OffSides, ReflectionThwarted, …) and NotOnCurve. -/
+theorem pake_element_failures_are_scared :
+    guardedBy "_SortedKey.compute_key" ["_sp.finish"]
+      ["AssertionError", "ValueError", "spake2.spake2.SPAKEError", "spake2.ed25519_basic.NotOnCurve"]
+      ["_B.scared", "return"]
+      ["_B.got_key", "derive_phase_key", "dict_to_bytes", "encrypt_data", "_M.add_message", "_R.got_key"] :=
+  ⟨_, rfl, by decide⟩
+
+/-- **undecryptable_is_a_bad_message**: `Receive.got_message` guards `decrypt_data` against the whole CryptoError
+    family (PyNaCl's own ValueError/TypeError/AssertionError variants included) and answers `got_message_bad(); return` -/
+theorem undecryptable_is_a_bad_message :
+    guardedBy "Receive.got_message" ["decrypt_data"] ["nacl.exceptions.CryptoError"]
+      ["self.got_message_bad", "return"] ["self.got_message_bad", "return", "derive_phase_key", "self.got_message_good"] :=
+  ⟨_, rfl, by decide⟩
+
+open WV.Gen in
+/-- **handler_failures_reach_the_boss**: whatever a response handler raises, `ws_message` hands to `Boss.error` (and
+    re-raises): the handler of its `try` catches every class of the universe. -/
+theorem handler_failures_reach_the_boss :
+    ∃ h, Catches.handlers "RendezvousConnector.ws_message" = [h] ∧ h.body = ["meth", "return"] ∧
+      h.handler = ["_B.error", "raise"] ∧ ∀ p ∈ Catches.classes, p.1 ∈ h.covers :=
+  ⟨_, rfl, by decide +kernel⟩
+
+/-- non-vacuity: the families really contain the classes the statements raise (each is exercised on the real code by
+    C14's corpus: tags `pake-raise:decode:UnicodeDecodeError`, `…:ascii:UnicodeEncodeError`, `…:loads:JSONDecodeError`,
+    `…:unhexlify:Error`, `…:finish:OffSides`, `…:finish:ReflectionThwarted`) -/
+example : "UnicodeDecodeError" ∈ below "ValueError" ∧ "UnicodeEncodeError" ∈ below "ValueError" ∧
+    "json.decoder.JSONDecodeError" ∈ below "ValueError" ∧ "binascii.Error" ∈ below "ValueError" ∧
+    "spake2.spake2.OffSides" ∈ below "spake2.spake2.SPAKEError" ∧
+    "spake2.spake2.ReflectionThwarted" ∈ below "spake2.spake2.SPAKEError" ∧
+    "nacl.exceptions.ValueError" ∈ below "nacl.exceptions.CryptoError" := by decide
 
 end WV.Props.C14
